@@ -720,15 +720,16 @@ pub fn gen(r: &mut Rng, thorough: bool) -> Vec<(String, String)> {
                 v.push(("tm_section".into(), args));
             }
             // soups (fu5): the same mesh plus a duplicated triangle (same / opposite orientation), a degenerate triangle with a
-            // repeated index on an existing edge, or a vertex used by no triangle — never flagged oriented. The section and the
+            // repeated index on an existing edge, or a point triangle — never flagged oriented (a vertex used by no triangle is NOT
+            // generated: the verdict oracles count every vertex as part of the surface). The section and the
             // cutting routines are total on such input (`section_never_panics`, `local_split_never_panics`) and the models are
             // compared bit for bit; planes through a vertex of the touched triangle, through its edge mid-point, sweep.
             if it % 10 == 0 {
-                let (mut sv, mut si) = (mv.clone(), mi.clone());
+                let (sv, mut si) = (mv.clone(), mi.clone());
                 match r.below(5) {
                     0 => si.push(t), 1 => si.push([t[0], t[2], t[1]]),
                     2 => si.push([t[0], t[0], t[1]]), 3 => { si.push([t[1], t[2], t[2]]); si.insert(0, [t[2], t[1], t[0]]); }
-                    _ => { sv.push(mv[k] + nrm * 0.5); si.push([t[2], t[2], t[2]]); } }
+                    _ => { si.push([t[2], t[2], t[2]]); si.push([t[0], t[1], t[0]]); } }
                 let eps = *r.pick(&[0.0, 0.0, 1e-9, 0.125]);
                 let bias = match r.below(4) {
                     0 => ds[t[0] as usize], 1 => (ds[t[0] as usize] + ds[t[1] as usize]) * 0.5, 2 => (ds[t[1] as usize] + ds[t[2] as usize]) * 0.5 + eps,
